@@ -297,6 +297,22 @@ let do_hd line =
     h ^ " P:" ^ p
   | _ -> "badcase"
 
+(* ---- ZRLT (C13):  zr f <dcap> <dcap2> ; bytes   |   zr i <dcap2> 0 ; symbols ---- *)
+let dec_of (l : K.n list) = if l = [] then "-" else String.concat " " (List.map sn l)
+let do_zr line =
+  match split_on_semis line with
+  | ["zr"; mode; c1; c2] :: data :: _ ->
+    let src = List.map ns (List.filter (fun s -> s <> "-") data) in
+    if mode = "f" then
+      (match K.zfwd src (ns c1) with
+       | None -> "F:err"
+       | Some enc ->
+         let f = "F:" ^ dec_of enc in
+         (match K.zinv enc (ns c2) with None -> f ^ " I:err" | Some d -> f ^ " I:" ^ dec_of d))
+    else
+      (match K.zinv src (ns c1) with None -> "I:err" | Some d -> "I:" ^ dec_of d)
+  | _ -> "badcase"
+
 let dispatch line =
   match words line with
   | [] -> ""
@@ -309,6 +325,7 @@ let dispatch line =
   | "sq" :: _ -> do_sq line
   | "bc" :: _ -> do_bc line
   | "hd" :: _ -> do_hd line
+  | "zr" :: _ -> do_zr line
   | k :: _ -> "unknown " ^ k
 
 let () =
